@@ -39,7 +39,7 @@ VARIANTS = {
     "rel": dict(tc="1.87", flags=CFG, args=["--release"], feats=[], sub="release"),
     "chk": dict(tc="1.87", flags=CFG + " -C debug-assertions=on -C overflow-checks=on", args=["--release"], feats=[], sub="release"),
     "par": dict(tc="1.87", flags=CFG, args=["--release"], feats=["concurrent"], sub="release"),
-    "async": dict(tc="1.87", flags=CFG, args=["--release"], feats=["async"], sub="release"),
+    "async": dict(tc="1.87", flags=CFG, args=["--release", "--no-default-features"], feats=["async"], sub="release"),
     "asan": dict(tc="nightly", flags=CFG + " -Zsanitizer=address -Cforce-frame-pointers=yes",
                  args=["--release", "--target", "x86_64-unknown-linux-gnu"], feats=[],
                  sub="x86_64-unknown-linux-gnu/release"),
